@@ -80,12 +80,33 @@ Theorem C20_divergence : forall (ts : list net) (hinv : nat -> R), length ts = l
   okR r /\ forall i, in_range sh i = true ->
     eval r i = sum_upto (length sh) (fun n => Dn sh n 1 (hinv n) (eval (s_nth ts n)) i).
 Proof. exact (divergence_spec sh sh_ne). Qed.
+(* gradient over an explicit list of modes (the list need not be sorted or a prefix).  bounds=None: component k is the
+   first-order stencil along the k-th LISTED mode d, scaled by that mode's own default step, 1/step = (I_d + 1)/(2 I_d) *)
+Theorem C20_gradient_default : forall (t : net) (dim : list nat), okR t -> Forall (fun d => (d < length sh)%nat) dim ->
+  let g := gen_derivatives_gradient_N net R r_partial r_default t dim in
+  length g = length dim /\
+  forall k d, nth_error dim k = Some d ->
+    exists c, nth_error g k = Some c /\ okR c /\
+      forall i, in_range sh i = true -> eval c i = Dn sh d 1 ((INR (nth d sh O) + 1) / (2 * INR (nth d sh O))) (eval t) i.
+Proof. exact (gradient_default_spec sh). Qed.
+
+(* one bounds pair per listed mode: component k uses the k-th listed mode and the k-th pair *)
+Theorem C20_gradient_bounds : forall (t : net) (dim : list nat) (hs : list R), okR t -> length hs = length dim ->
+  Forall (fun d => (d < length sh)%nat) dim ->
+  let g := gen_derivatives_gradient_B net R r_partial t dim hs in
+  length g = length dim /\
+  forall k d h, nth_error dim k = Some d -> nth_error hs k = Some h ->
+    exists c, nth_error g k = Some c /\ okR c /\
+      forall i, in_range sh i = true -> eval c i = Dn sh d 1 h (eval t) i.
+Proof. exact (gradient_bounds_spec sh). Qed.
 End C20_vector_calculus.
 
 Print Assumptions C20_partial.
 Print Assumptions C20_curl.
 Print Assumptions C20_laplacian.
 Print Assumptions C20_divergence.
+Print Assumptions C20_gradient_default.
+Print Assumptions C20_gradient_bounds.
 Print Assumptions C20_stencil.
 Print Assumptions C20_constants_annihilated.
 Print Assumptions C20_affine_to_constant.
